@@ -10,6 +10,69 @@ TRUSTED = ["sanitizer build (clang -fsanitize=address,bounds,null) turns a memor
 ASSUMPTIONS = ["theorems cover the header parser, input stream and basic reader (P_HeaderSafe) and the decompressors (C09); "
                "lha_reader, extraction and the command-line layer are covered by the sanitizer oracle and correspondence only"]
 MODES = [["l"], ["v"], ["lv"], ["vv"], ["t"], ["p"], ["xn"], ["x"], ["xq2f"], ["e"]]
+# option/argument forms that reach code the plain modes do not: an extraction directory (w=), member patterns after the
+# archive name (src/filter.c).  What follows "--" goes after the archive name.
+MODES2 = [["xw=o"], ["eq1w=o/"], ["xfiw=o"], ["l", "--", "*"], ["v", "--", "*.*", "?*"], ["t", "--", "*a*"], ["xq2f", "--", "*"],
+          ["p", "--", "[", "*"], ["lq", "--", "*/*"]]
+
+
+def argv(mode, name="a.lzh"):
+    if "--" in mode:
+        k = mode.index("--")
+        return mode[:k] + [name] + mode[k + 1:]
+    return mode + [name]
+
+
+def directed_archives(ctx, rnd):
+    """(bytes, kind): header shapes aimed at the length checks of the parser.
+    level0-area -- level-0 headers whose extended area starts like a Unix / OS-9-68k / OS-9 area and has EVERY length from 1
+                   to 30 (the area is the end of the header allocation, so a field read beyond it is a heap overflow);
+    len-sweep   -- every length field of every level (header length, name length, first extended-header size, level-3 total
+                   length) set to each value 0..70 and to values around the true one, the checksum repaired for level 0/1, so that
+                   the code behind the checksum sees the inconsistent length."""
+    res = []
+    for first in (ord('U'), ord('K'), ord('9')):
+        for n in range(1, 31):
+            for variant in range(2):
+                a = bytearray(rnd.randrange(256) for _ in range(n))
+                a[0] = first
+                if first != ord('9') and n > 1:
+                    a[1] = 0
+                if first == ord('9'):
+                    if n > 9:
+                        a[9] = 0xcc
+                    if n > 18 and variant:
+                        a[17], a[18] = a[1], a[2]
+                nm = bytes(rnd.choice(b"abcXYZ") for _ in range(rnd.choice([1, 3, 8])))
+                f = {"level": 0, "method": rnd.choice([b"-lh0-", b"-lh5-", b"-lhd-"]), "clen": 2, "length": 2, "crc": 0, "attr": 0x20,
+                     "os": 0, "time": 0x21, "name": nm, "area": bytes(a)}
+                res.append((lb.build_header(f) + b"ab" + bytes(rnd.choice([0, 1, 30])), "level0-area"))
+    for lv in (0, 1, 2, 3):
+        for rep in range(2 if ctx.quick else 6):
+            nm = bytes(rnd.choice(b"abcXYZ") for _ in range(rnd.choice([1, 4, 9])))
+            f = {"level": lv, "method": b"-lh0-", "clen": 3, "length": 3, "crc": lb.crc16(b"abc"), "attr": 0x20, "os": rnd.choice([ord('U'), ord('K'), 0]),
+                 "time": 0x21 if lv < 2 else 1000000000}
+            if lv < 2:
+                f["name"] = nm
+            if lv > 0:
+                f["exts"] = [(1, nm), (2, b"d\xff"), (0x50, b"\xa4\x81")][:rnd.choice([0, 1, 3]) if lv == 1 else rnd.choice([1, 3])]
+            hdr = lb.build_header(f)
+            fields = {0: [(0, 1), (21, 1)], 1: [(0, 1), (21, 1), (hdr[0], 2)], 2: [(0, 2), (24, 2)], 3: [(0, 2), (24, 4), (28, 4)]}[lv]
+            for (off, w) in fields:
+                val = int.from_bytes(hdr[off:off + w], "little")
+                for v in sorted(set(list(range(0, 71)) + [val + d for d in range(-4, 5)] + [255, 256, 65535])):
+                    if v < 0 or v >= 1 << (8 * w) or v == val:
+                        continue
+                    h = bytearray(hdr)
+                    h[off:off + w] = v.to_bytes(w, "little")
+                    tail = b"abc" + bytes(rnd.choice([0, 2, 40]))
+                    if lv in (0, 1):
+                        full = bytes(h) + tail
+                        if len(full) >= 2 + h[0]:
+                            h[1] = sum(full[2:2 + h[0]]) & 0xff
+                    res.append((bytes(h) + tail, "len-sweep"))
+    return res
+
 
 
 def archives(ctx, rnd, cb):
@@ -128,6 +191,8 @@ def run(ctx):
         hexe = cb.compile("drv_hdr", [os.path.join(common.CDIR, "drv_hdr.c")] + cb.lib_sources())
         lha = common.build_lha(cb)
         arcs = archives(ctx, rnd, cb)
+        n_random = len(arcs)
+        arcs += directed_archives(ctx, random.Random(ctx.seed * 32452843 + 88))
         # (a) library: header iteration through the four stream kinds, model vs C
         lines = []
         for a, kind in arcs:
@@ -149,9 +214,25 @@ def run(ctx):
         os.chown(scratch, 65534, 65534) if os.geteuid() == 0 else None
         jobs = []
         for i, (a, kind) in enumerate(arcs):
+            if i >= n_random:
+                # directed header shapes: the library run above is the main oracle; a sample goes through the tool
+                if i % (9 if ctx.quick else 2) == 0:
+                    jobs.append((i, a, kind, rnd.choice([["v"], ["t"], ["x"], ["l"]])))
+                continue
             if ctx.quick and i % 3 != ctx.seed % 3:
                 continue
             jobs.append((i, a, kind, rnd.choice(MODES)))
+        # the extra option/argument forms, on intact repository archives (so that members are really matched and extracted)
+        # and on a few damaged ones
+        rnd2 = random.Random(ctx.seed * 49979687 + 8)
+        good = sorted(p for p in glob.glob(os.path.join(common.REPO, "test/archives/*/*")) if os.path.isfile(p) and os.path.getsize(p) < 20000)
+        k = len(arcs)
+        for mode in MODES2 * (1 if ctx.quick else 6):
+            for _ in range(3):
+                a = open(rnd2.choice(good), "rb").read()
+                jobs.append((k, a, "intact", mode)); k += 1
+            a, kind = arcs[rnd2.randrange(n_random)]
+            jobs.append((k, a, kind, mode)); k += 1
 
         def one(job):
             i, a, kind, mode = job
@@ -163,7 +244,7 @@ def run(ctx):
             if os.geteuid() == 0:
                 os.chown(d, 65534, 65534)
                 os.chown(ap, 65534, 65534)
-            rc, out, err = common.run_lha(lha, mode + ["a.lzh"], cwd=d, as_nobody=True, stdin=b"y\n" * 50, timeout=120)
+            rc, out, err = common.run_lha(lha, argv(mode), cwd=d, as_nobody=True, stdin=b"y\n" * 50, timeout=120)
             if os.geteuid() == 0:
                 common.sh(["chmod", "-R", "u+rwx", d])
             shutil.rmtree(d, ignore_errors=True)
@@ -171,17 +252,20 @@ def run(ctx):
         with ThreadPoolExecutor(max_workers=common.NCPU) as ex:
             results = list(ex.map(one, jobs))
         for (i, a, kind, mode), ab, rc in results:
-            dist["tool:" + mode[0]] += 1
+            dist["tool:" + " ".join(mode)] += 1
             if ab:
                 viol.append({"property": PID, "kind": "tool-abnormal-termination", "mode": mode, "archive_hex": a.hex()[:200000],
                              "observed": ab, "exit": rc, "sig": "toolcrash:" + ab[:60],
-                             "how_to_replay": "write archive_hex to a.lzh; lha %s a.lzh (sanitizer build)" % " ".join(mode)})
+                             "how_to_replay": "write archive_hex to a.lzh; lha %s (sanitizer build)" % " ".join(argv(mode))})
         cov = {"evaluations": len(lines) + len(jobs), "distinct_nontrivial": nontriv + len(jobs),
                "rule": "five archive streams (unstructured bytes with plausible signatures; mutations of the repository's archives: "
                        "bit flips, overwrites, deletions, insertions, truncations; generated multi-member archives with one length field "
                        "set to 0, min-1, +-1, max, 1 MiB(+1); level 1-3 extended-header chains with the length field of every link set to 0 .. field size + 3 and to the remaining size -1/0/+1/+field size, followed by each known header type; archives of the reader test's generators: directories, links, Mac members incl. ones whose data ends before the MacBinary header, damaged members), each (a) iterated through the library with the four stream kinds and "
                        "compared with the model, (b) given to the sanitizer build of the tool in one of the modes l v lv vv t p xn x "
-                       "xq2f e as uid 65534 in a scratch directory. non-trivial = archive that yields at least one header / a tool run",
+                       "xq2f e as uid 65534 in a scratch directory; plus (directed_archives) level-0 extended areas of every length 1..30 starting like a Unix / "
+                       "OS-9 area and every length field of every level set to 0..70 and around its value with the checksum repaired (library, a "
+                       "sample through the tool), and (MODES2) w=DIR extraction and member patterns after the archive name on intact and "
+                       "damaged archives. non-trivial = archive that yields at least one header / a tool run",
                "distribution": dict(dist), "samples": [lines[0][:160], lines[len(lines) // 2][:160], lines[-1][:160]]}
         return {"violations": viol[:10], "mismatches": mism[:10], "coverage": cov,
                 "search_note": "direct oracle: sanitizer reports / abnormal exits of the library driver and of the tool"}
@@ -199,7 +283,7 @@ def replay(payload):
             lha = common.build_lha(cb)
             d = common.scratch_dir("c08r")
             open(os.path.join(d, "a.lzh"), "wb").write(bytes.fromhex(payload["archive_hex"]))
-            rc, out, err = common.run_lha(lha, payload["mode"] + ["a.lzh"], cwd=d, stdin=b"y\n" * 50)
+            rc, out, err = common.run_lha(lha, argv(payload["mode"]), cwd=d, stdin=b"y\n" * 50)
             shutil.rmtree(d, ignore_errors=True)
             ab = common.abnormal(rc, err)
             print("exit", rc, "abnormal:", ab)
